@@ -111,6 +111,7 @@ func batchWorld(r *R) {
 
 	cs := &Calls{r: r}
 	delivered := 0 // number of source items received in batches so far
+	var lastDeliveredAt int64
 	var terminal error
 	consumerDone := false
 	var closeCall *Call
@@ -178,6 +179,8 @@ func batchWorld(r *R) {
 				}
 				first := delivered
 				delivered += len(b)
+				prevDeliveredAt := lastDeliveredAt
+				lastDeliveredAt = c.RetAt
 				sourceEnded := src.EndSeq != 0 && src.EndSeq < c.Ret
 				if !full(b) && !sourceEnded {
 					r.Probe("underfilled-by-timer")
@@ -194,7 +197,18 @@ func batchWorld(r *R) {
 					r.Probe("final-partial-batch")
 				}
 				if strictTiming {
-					// handed to a waiting consumer rather than held back
+					// Handed to a waiting consumer rather than held back. The batch's clock starts when
+					// the batcher takes its oldest item, which is the source's hand-over or, if the
+					// batcher was still holding the previous batch, the moment that batch was taken;
+					// once that item is maxWait old a waiting consumer gets the batch at once.
+					started := src.HandOver[first]
+					if prevDeliveredAt > started {
+						started = prevDeliveredAt
+					}
+					if due := started + int64(maxWait); c.RetAt > c.InvAt && c.RetAt > due {
+						r.Violate("C11", "held-back", "Next was invoked at t=%v; the oldest item of its batch %v was handed over at t=%v (previous batch taken at t=%v), so with maxWait=%v the batch was due at t=%v, but it was only delivered at t=%v", time.Duration(c.InvAt), b, time.Duration(src.HandOver[first]), time.Duration(prevDeliveredAt), maxWait, time.Duration(due), time.Duration(c.RetAt))
+						return
+					}
 					from := c.InvAt
 					if src.HandOver[first] > from {
 						from = src.HandOver[first]
